@@ -292,8 +292,21 @@ func (t *Task) removeFromQueues() {
 func (t *Task) runWithLocking() {
 	t.lock.Lock()
 
+	// Both handlers may come to the task for the same submission, eg. when
+	// its max delay expires just as the queue gets to it. The first one takes
+	// the task out of the queues and the schedule - when nothing is left of
+	// the submission, it has been served and there is nothing to do.
+	submitted := t.queueElement != nil ||
+		t.prioritizedQueueElement != nil ||
+		t.scheduleListElement != nil
+
 	// we will not attempt execution, remove from queues
 	t.removeFromQueues()
+
+	if !submitted {
+		t.lock.Unlock()
+		return
+	}
 
 	// check if task is already executing
 	if t.executing {
